@@ -615,8 +615,9 @@ type c16result struct {
 	tampers []string
 }
 
-// cont: the caller ignores WriteItem errors, writes the remaining items and calls Save (+ merge) anyway
-func (e *c16env) run(basename, order string, tampers []c16tamper, cont bool) c16result {
+// returns the result of driver 1 (stop at the first WriteItem error) and, if withcont and a WriteItem failed, of driver 2
+// (the caller ignores WriteItem errors, writes the remaining items and calls Save + merge anyway) over the same served files
+func (e *c16env) run(basename, order string, tampers []c16tamper, withcont bool) []c16result {
 	e.seq++
 	src := filepath.Join(e.work, fmt.Sprintf("src-%d", e.seq))
 	dst := filepath.Join(e.work, fmt.Sprintf("dst-%d", e.seq))
@@ -704,25 +705,13 @@ func (e *c16env) run(basename, order string, tampers []c16tamper, cont bool) c16
 		}
 		res.badmap = true
 
-		return res
+		return []c16result{res}
 	}
 
 	res.broken = c16Broken(e, src, m, b)
 
 	// reference validator on the served files (information only)
 	res.srcerr = IsValidBlockFromLocalFS(srcReaders.Item, c16H, e.LocalParams.NetworkID(), nil, nil, nil)
-
-	// the importer, driven like isaacblock.importBlock + saveImporters
-	bwdb := isaacdatabase.NewLeveldbBlockWrite(c16H, leveldbstorage.NewMemStorage(), e.Encs, e.Enc)
-	defer bwdb.DeepClose()
-
-	merged := false
-	im, err := NewBlockImporter(dst, e.Encs, m, bwdb, func(context.Context) error {
-		merged = true
-
-		return nil
-	}, e.LocalParams.NetworkID())
-	e.must(err)
 
 	items := append([]base.BlockItemType{}, c16ItemOrder...)
 	if order == "rev" {
@@ -731,55 +720,80 @@ func (e *c16env) run(basename, order string, tampers []c16tamper, cont bool) c16
 		}
 	}
 
-	for _, t := range items {
-		if _, found := m.Item(t); !found {
-			continue
-		}
-		_, found, err := srcReaders.Item(c16H, t, func(ir isaac.BlockItemReader) error {
-			return im.WriteItem(t, ir)
-		})
-		if err == nil && !found {
-			err = fmt.Errorf("item %q not found in source", t)
-		}
-		if err != nil {
-			if res.itemerr == nil {
-				res.itemerr = err
+	// the importer, driven like isaacblock.importBlock + saveImporters; one fresh importer, database and root per driver
+	doimport := func(res c16result, cont bool, dst string) c16result {
+		bwdb := isaacdatabase.NewLeveldbBlockWrite(c16H, leveldbstorage.NewMemStorage(), e.Encs, e.Enc)
+		defer bwdb.DeepClose()
+
+		merged := false
+		im, err := NewBlockImporter(dst, e.Encs, m, bwdb, func(context.Context) error {
+			merged = true
+
+			return nil
+		}, e.LocalParams.NetworkID())
+		e.must(err)
+
+		for _, t := range items {
+			if _, found := m.Item(t); !found {
+				continue
 			}
-			if !cont {
+			_, found, err := srcReaders.Item(c16H, t, func(ir isaac.BlockItemReader) error {
+				return im.WriteItem(t, ir)
+			})
+			if err == nil && !found {
+				err = fmt.Errorf("item %q not found in source", t)
+			}
+			if err != nil {
+				if res.itemerr == nil {
+					res.itemerr = err
+				}
+				if !cont {
+					res.imperr = err
+
+					break
+				}
+			}
+		}
+
+		if res.imperr == nil {
+			switch deferred, err := im.Save(context.Background()); {
+			case err != nil:
 				res.imperr = err
-
-				break
+			default:
+				res.imperr = deferred(context.Background())
 			}
 		}
-	}
 
-	if res.imperr == nil {
-		switch deferred, err := im.Save(context.Background()); {
-		case err != nil:
-			res.imperr = err
-		default:
-			res.imperr = deferred(context.Background())
+		if res.imperr != nil {
+			_ = im.CancelImport(context.Background())
+
+			return res
 		}
-	}
 
-	if res.imperr != nil {
-		_ = im.CancelImport(context.Background())
+		if !merged {
+			e.t.Fatalf("c16 %s: Save succeeded but the merge callback did not run", id)
+		}
+
+		res.stored = true
+
+		dstReaders := e.NewReaders(dst)
+		defer dstReaders.Close()
+
+		res.valerr = IsValidBlockFromLocalFS(dstReaders.Item, c16H, e.LocalParams.NetworkID(), nil, nil, nil)
 
 		return res
 	}
 
-	if !merged {
-		e.t.Fatalf("c16 %s: Save succeeded but the merge callback did not run", id)
+	out := []c16result{doimport(res, false, dst)}
+	// whatever the caller does with a WriteItem error, the block must not be stored: write the rest, Save, merge
+	if withcont && out[0].itemerr != nil {
+		dst2 := dst + "-cont"
+		e.must(os.MkdirAll(dst2, 0o700))
+		defer os.RemoveAll(dst2)
+		out = append(out, doimport(res, true, dst2))
 	}
 
-	res.stored = true
-
-	dstReaders := e.NewReaders(dst)
-	defer dstReaders.Close()
-
-	res.valerr = IsValidBlockFromLocalFS(dstReaders.Item, c16H, e.LocalParams.NetworkID(), nil, nil, nil)
-
-	return res
+	return out
 }
 
 func c16subsets(n, depth int, ok func([]int) bool) [][]int {
@@ -848,7 +862,7 @@ func TestVerifC16(t *testing.T) {
 
 	// sanity (every shard): the untampered block is stored and accepted, otherwise nothing below means anything
 	for _, bn := range []string{"plain", "suffrage"} {
-		res := e.run(bn, "fwd", nil, false)
+		res := e.run(bn, "fwd", nil, false)[0]
 		if !res.stored || res.valerr != nil || res.srcerr != nil || len(res.broken) > 0 {
 			t.Fatalf("c16: untampered block (base %s) not stored/valid: importer=%v validator=%v source=%v broken=%v",
 				bn, res.imperr, res.valerr, res.srcerr, res.broken)
@@ -882,7 +896,8 @@ func TestVerifC16(t *testing.T) {
 					continue
 				}
 
-				first := e.run(bn, order, tampers, false)
+				results := e.run(bn, order, tampers, wantCont)
+				first := results[0]
 				if first.badmap {
 					r.Add("skipped_block_map_not_wellformed", 1)
 					r.Outcome("precondition:block-map-not-wellformed")
@@ -899,9 +914,8 @@ func TestVerifC16(t *testing.T) {
 				if wantStop {
 					runs = append(runs, one{baseid, first, false})
 				}
-				// whatever the caller does with a WriteItem error, the block must not be stored: write the rest, Save, merge
-				if first.itemerr != nil && wantCont {
-					runs = append(runs, one{contid, e.run(bn, order, tampers, true), true})
+				if len(results) > 1 {
+					runs = append(runs, one{contid, results[1], true})
 				}
 
 				for _, x := range runs {
